@@ -5,9 +5,11 @@ package main
 
 import (
 	"fmt"
+	"github.com/iden3/go-iden3-crypto/poseidon"
 	"math/big"
 	"math/rand"
 	"sync"
+	"worldcoin/gnark-mbu/poseidon_tree"
 
 	"worldcoin/gnark-mbu/prover"
 )
@@ -30,6 +32,50 @@ type issued struct {
 	other *big.Int // input hash of a perturbed batch
 }
 
+// foldPath: the root obtained by climbing from a leaf at position idx with the given siblings (iden3 reference Poseidon)
+func foldPath(leaf *big.Int, idx uint32, proof []big.Int) *big.Int {
+	cur := new(big.Int).Set(leaf)
+	for l := range proof {
+		var h *big.Int
+		var err error
+		if (idx>>uint(l))&1 == 0 {
+			h, err = poseidon.Hash([]*big.Int{cur, &proof[l]})
+		} else {
+			h, err = poseidon.Hash([]*big.Int{&proof[l], cur})
+		}
+		if err != nil {
+			die("poseidon: %v", err)
+		}
+		cur = h
+	}
+	return cur
+}
+
+// occupiedLastInsertion: a batch that is consistent in every respect (genuine sibling paths, post-root = the tree's root after writing
+// every slot, matching hash) except that the LAST slot's leaf is already occupied
+func occupiedLastInsertion(rng *rand.Rand, depth, batch int) *prover.InsertionParameters {
+	tree := poseidon_tree.NewTree(depth)
+	start := 0
+	if (1<<depth)-batch > 0 {
+		start = rng.Intn((1 << depth) - batch + 1)
+	}
+	for i := 0; i < start; i++ {
+		tree.Update(i, *randField(rng))
+	}
+	tree.Update(start+batch-1, *randField(rng)) // the occupant
+	p := &prover.InsertionParameters{StartIndex: uint32(start)}
+	p.PreRoot = tree.Root()
+	p.IdComms = make([]big.Int, batch)
+	p.MerkleProofs = make([][]big.Int, batch)
+	for i := 0; i < batch; i++ {
+		p.IdComms[i] = *randField(rng)
+		p.MerkleProofs[i] = tree.Update(start+i, p.IdComms[i])
+	}
+	p.PostRoot = tree.Root()
+	p.InputHash = *refInputHashInsertion(p)
+	return p
+}
+
 func mutateIns(rng *rand.Rand, p *prover.InsertionParameters, cls string, depth int) {
 	one := big.NewInt(1)
 	rehash := func() { p.InputHash = *refInputHashInsertion(p) }
@@ -45,6 +91,16 @@ func mutateIns(rng *rand.Rand, p *prover.InsertionParameters, cls string, depth 
 		p.MerkleProofs[i][j].Add(&p.MerkleProofs[i][j], one).Mod(&p.MerkleProofs[i][j], bn254R)
 	case "wrong-hash":
 		p.InputHash.Add(&p.InputHash, one)
+	case "forged-last":
+		// a junk sibling in the last slot, with the post-root and the hash recomputed from it: consistent with a circuit that
+		// forgot to tie that slot's path to the running root
+		k := len(p.MerkleProofs) - 1
+		j := rng.Intn(depth)
+		p.MerkleProofs[k][j] = *randField(rng)
+		p.PostRoot = *foldPath(&p.IdComms[k], p.StartIndex+uint32(k), p.MerkleProofs[k])
+		rehash()
+	case "occupied-last":
+		*p = *occupiedLastInsertion(rng, depth, len(p.IdComms))
 	case "start-shifted":
 		p.StartIndex = (p.StartIndex + 1) % (1 << depth)
 		rehash()
@@ -85,6 +141,16 @@ func mutateDel(rng *rand.Rand, p *prover.DeletionParameters, cls string, depth i
 		rehash()
 	case "wrong-path":
 		p.MerkleProofs[0][0].Add(&p.MerkleProofs[0][0], one).Mod(&p.MerkleProofs[0][0], bn254R)
+	case "forged-last":
+		k := len(p.MerkleProofs) - 1
+		if p.DeletionIndices[k] < 1<<uint(depth) {
+			j := rng.Intn(depth)
+			p.MerkleProofs[k][j] = *randField(rng)
+			p.PostRoot = *foldPath(big.NewInt(0), p.DeletionIndices[k], p.MerkleProofs[k])
+		} else {
+			p.PostRoot.Add(&p.PostRoot, one).Mod(&p.PostRoot, bn254R) // last slot is padding: nothing to forge there
+		}
+		rehash()
 	case "wrong-leaf":
 		p.IdComms[0].Add(&p.IdComms[0], one).Mod(&p.IdComms[0], bn254R)
 	case "wrong-hash":
